@@ -171,4 +171,4 @@ def body(case):
 
 
 def tests(tier):
-    return [TestSpec("roundtrip", gen_case, body, {"quick": 40, "thorough": 24000}, factors=SHAPES, tape=1024)]
+    return [TestSpec("roundtrip", gen_case, body, {"quick": 40, "thorough": 24000}, factors=SHAPES, tape=1024, fuzz={"thorough": 60000})]
